@@ -193,6 +193,45 @@ theorem C05_cell_data {α} (cs : List (Nat × List Nat)) (vals : List α) (hl : 
     splitCellData vals (vtuContent cs) = some (cellDataContent cs vals) :=
   splitCellData_content cs vals hl
 
+/-- **C05 (VTP cell layout).**  For the four cell sections of a `.vtp` (Verts, Lines, Polys, Strips;
+    any cells, rows of any length, empty sections allowed): decoding the per-section
+    `connectivity / offsets` arrays and the `NumberOf…` attributes yields, per NON-EMPTY section in
+    file order, exactly its cells in file order and the consecutive index range of its cells. -/
+theorem C05_vtp_layout (secs : List (Nat × List (List Nat))) :
+    vtpLayout (vtpArrays secs) = vtpContent secs :=
+  vtpLayout_from secs 0
+
+/-- … and every cell-data array is split along the same ranges: section `k` gets the values of its
+    own cells, in file order (mirror of `C05_cell_data`) -/
+theorem C05_vtp_cell_data {α} (secs : List (Nat × List (List Nat))) (vals : List α)
+    (hl : vals.length = (secs.map (·.2.length)).sum) :
+    splitCellData vals (vtpLayout (vtpArrays secs)) = some (vtpCellDataContent secs vals) := by
+  rw [C05_vtp_layout]
+  exact splitCellData_vtpContentFrom secs [] vals hl
+
+/-- the three value readers of `VTKXMLReader` as the source text has them now: the binary ones hand numpy
+    a dtype in the file's byte order (`readArray` models exactly that), the ascii one a native dtype -/
+theorem C05_dtype_byte_order :
+    Gen.vtkDtypeByteOrder = [("ascii", false), ("binary", true), ("appended", true)] := by decide
+
+/-- **C05 (ascii ignores `byte_order`).**  The items read from an ascii array do not depend on the
+    header's `byte_order` attribute: for both byte orders they are the native items of the tokens,
+    hence a file that declares `BigEndian` reads like one that declares `LittleEndian`, and the
+    tokens of logical items read back to these items.  (`asciiItems` takes the dtype's dependence on
+    the byte order from the source text; with a byte-order dependent dtype the statement is false —
+    negation witness in Witness/C05.lean.) -/
+theorem C05_ascii_byte_order (bo : ByteOrder) (signed : Bool) (sz : Nat) (hsz : 0 < sz) (toks : List Int)
+    (items : List Nat) (hb : IsBytes items) (hd : items.length % sz = 0) :
+    asciiItems bo sz toks = asciiRead sz toks ∧
+    asciiItems .be sz toks = asciiItems .le sz toks ∧
+    asciiItems bo sz (asciiTokens signed sz items) = items := by
+  have h : ∀ b t, asciiItems b sz t = asciiRead sz t := by
+    intro b t
+    unfold asciiItems asciiItemsWith
+    rw [C05_dtype_byte_order]
+    rfl
+  exact ⟨h bo toks, by rw [h, h], by rw [h]; exact C05_ascii signed sz hsz items hb hd⟩
+
 /-
   Raw-appended files are not well-formed XML; the reader then cuts the appendix out of the file content
   with byte searches (`Fc.fallbackAppendix`, model of `_find_appendix_positions` / `_determine_encoding`).
